@@ -251,13 +251,13 @@ def make_object(rng, rs, variant):
     scale = variant.get("scale", 1.0)
     fc_model = gen.pair_fc(ph.supercell, 4.6)
     dsk = variant.get("dataset")
-    if dsk in ("t1", "t1-disp", "t1-energy"):
+    if dsk in ("t1", "t1-disp", "t1-energy", "t1-partial"):
         ph.generate_displacements(distance=0.03 * min(scale, 1.0) if scale < 1 else 0.03)
         ds = _copy.deepcopy(ph.dataset)
         for d in ds["first_atoms"]:
             if scale != 1.0:
                 d["displacement"] = np.array(d["displacement"]) * (scale if scale < 1e3 else 1.0)
-            if dsk != "t1-disp":
+            if dsk != "t1-disp" and not (dsk == "t1-partial" and d is not ds["first_atoms"][0]):
                 d["forces"] = np.array(-np.einsum("jab,b->ja", fc_model[d["number"]], d["displacement"]) * (scale if scale >= 1e3 else 1.0), dtype="double", order="C")
             if dsk == "t1-energy":
                 d["supercell_energy"] = float(rs.uniform(-1, 1) * 100)
@@ -542,11 +542,13 @@ def roundtrip(run, lines, meta, ph, v, case):
 # --------------------------------------------------------------------------
 
 def ds_flag(ds):
-    from phonopy.structure.dataset import forces_in_dataset
-
+    """the harness's own reading of a dataset (independent of phonopy's forces_in_dataset, which part C ties to the Lean model):
+    a type-1 dataset has forces when EVERY displaced supercell has them, a type-2 dataset when the force array is there"""
     if ds is None:
         return "absent"
-    return "forces" if forces_in_dataset(ds) else "disp"
+    if "first_atoms" in ds:
+        return "forces" if all("forces" in d for d in ds["first_atoms"]) else "disp"
+    return "forces" if "forces" in ds else "disp"
 
 
 def settings_tokens(st):
@@ -567,7 +569,8 @@ def part_saveload(run, rng, rs, lines, meta):
     thorough = run.tier == "thorough"
     variants = []
     crystals = [("nacl_prim", [2, 1, 1]), ("cscl", [1, 1, 2])]
-    datasets = [None, "t1", "t1-disp", "t1-energy", "t2", "t2-disp", "t2-energy", "t2-seed"]
+    # "t1-partial": forces on the first displaced supercell only (a half-filled dataset: not a dataset with forces)
+    datasets = [None, "t1", "t1-disp", "t1-energy", "t1-partial", "t2", "t2-disp", "t2-energy", "t2-seed"]
     fcs = [None, "full", "compact", "produced"]
     settings_list = [{}, {"force_constants": True}, {"force_constants": False}, {"force_sets": False},
                      {"force_sets": False, "displacements": False}, {"born_effective_charge": False},
